@@ -51,8 +51,8 @@ namespace ratio
                         }
                         else // we update the lower bound..
                             static_cast<atom_adaptation::arith_bounds *>(it->second)->lb = lb;
-                        if (xpr->get_type().get_name() == REAL_KEYWORD)
-                        { // we have a real variable..
+                        if (xpr->get_type().get_name() == REAL_KEYWORD && slv.get_sat_core().value(adaptations.at(atm).sigma_xi) == True)
+                        { // we have a real variable (if a previous delay caused a backjump which undid the execution variable, the stored bound is propagated as soon as the plan is repaired)..
                             if (!slv.get_lra_theory().set_lb(slv.get_lra_theory().new_var(xpr->l), lb, adaptations.at(atm).sigma_xi))
                             { // setting the lower bound caused a conflict..
                                 swap_conflict(slv.get_lra_theory());
@@ -79,8 +79,8 @@ namespace ratio
                         }
                         else // we update the lower bound..
                             static_cast<atom_adaptation::arith_bounds *>(it->second)->lb = lb;
-                        if (xpr->get_type().get_name() == REAL_KEYWORD)
-                        { // we have a real variable..
+                        if (xpr->get_type().get_name() == REAL_KEYWORD && slv.get_sat_core().value(adaptations.at(atm).sigma_xi) == True)
+                        { // we have a real variable (if a previous delay caused a backjump which undid the execution variable, the stored bound is propagated as soon as the plan is repaired)..
                             if (!slv.get_lra_theory().set_lb(slv.get_lra_theory().new_var(xpr->l), lb, adaptations.at(atm).sigma_xi))
                             { // setting the lower bound caused a conflict..
                                 swap_conflict(slv.get_lra_theory());
